@@ -13,6 +13,8 @@ mod alloc;
 mod cc14;
 mod common;
 mod nrpn;
+#[cfg(feature = "cfg_std")]
+mod polling;
 mod rng;
 
 use common::*;
@@ -23,6 +25,8 @@ pub fn exec(tag: i64, inp: &[i64]) -> Vec<i64> {
     match tag {
         70 | 71 | 80 => cc14::exec(tag, inp),
         90 | 100 | 101 | 110 => nrpn::exec(tag, inp),
+        #[cfg(feature = "cfg_std")]
+        120 | 130 | 131 | 132 | 140 => polling::exec(tag, inp),
         _ => vec![-97],
     }
 }
@@ -34,6 +38,10 @@ fn gen(prop: &str, tier: Tier, seed: u64, em: &mut Emitter) {
         "C09" => nrpn::gen_c09(tier, seed, em),
         "C10" => nrpn::gen_c10(tier, seed, em),
         "C11" => nrpn::gen_c11(tier, seed, em),
+        #[cfg(feature = "cfg_std")]
+        "C13" => polling::gen_c13(tier, seed, em),
+        #[cfg(feature = "cfg_std")]
+        "C14" => polling::gen_c14(tier, seed, em),
         _ => {
             eprintln!("unknown property {}", prop);
             std::process::exit(2);
